@@ -11,7 +11,8 @@ from pathlib import Path
 FUNC_NAMES = ["alpha", "beta", "_prot", "_p2", "__priv", "__dun__", "_Cls__m", "_A1__x_", "mainloop", "main",
               "testify", "test_it", "maintain", "tested", "_", "__", "_x__", "_Kk__z__", "x__y", "__a__b", "gamma_"]
 CLASS_NAMES = ["Foo", "Bar", "_Hidden", "__Priv", "Baz", "_Kls__N", "Qux", "MainThing", "TestCase1"]
-METHOD_NAMES = ["get", "put", "_prot", "__priv", "__len__", "__call__", "_x__", "run", "__a__b", "_Foo__fake", "main", "test_m"]
+METHOD_NAMES = ["get", "get_all", "put", "putter", "_prot", "__priv", "__len__", "__call__", "_x__", "run", "__a__b", "_Foo__fake",
+                "main", "test_m"]
 
 
 HELPER_SRC = "\n".join([
@@ -26,6 +27,23 @@ HELPER_SRC = "\n".join([
 
 FACTORY_NAMES = ["mk_a", "_mk_b", "__mk_c", "build", "_build"]
 INNER_NAMES = ["inner_pub", "_inner_prot", "__inner_priv", "__inner_dun__", "scale", "_add"]
+
+
+BUILTIN_DERIVED = [
+    ("Stack", ["class @(list):", "    def push(self, x):", "        self.append(x)"]),
+    ("Registry", ["class @(dict):", "    def names(self):", "        return sorted(self)"]),
+    ("Celsius", ["class @(float):", "    def kelvin(self):", "        return self + 273.15"]),
+    ("Label", ["class @(str):", "    pass"]),
+    ("Count", ["class @(int):", "    def twice(self):", "        return 2 * self"]),
+    ("Bag", ["class @(set):", "    pass"]),
+    ("Pair", ["class @(tuple):", "    def first(self):", "        return self[0]"]),
+    ("Point", ["class @(NamedTuple):", "    x: int", "    y: int = 0", "    def norm(self):", "        return abs(self.x) + abs(self.y)"]),
+    ("Size", ["@ = namedtuple('@', ['w', 'h'])"]),
+    ("Level", ["class @(enum.IntEnum):", "    LOW = 1", "    HIGH = 2"]),
+    ("Tag", ["class @(str, enum.Enum):", "    A = 'a'", "    B = 'b'"]),
+    ("Mode", ["class @(enum.StrEnum):", "    ON = 'on'"]),
+    ("Flagged", ["class @(enum.Flag):", "    R = 1", "    W = 2"]),
+]
 
 
 def layout(k, variant):
@@ -53,6 +71,12 @@ def gen_case(rng, k):
     sut, sut_path, helper, extra = layout(k, variant)
     L = ["import abc", "import enum", "import functools", f"import {helper}",
          f"from {helper} import hf_public, _hf_prot, HelperBase, HelperOther, HelperColor, hdeco, hmake"]
+    tail = []   # classes deriving from builtin collections / primitives, named tuples, mixin enums
+    if rng.random() < 0.5:
+        tail += ["from collections import namedtuple", "from typing import NamedTuple"]
+        for bn in rng.sample(BUILTIN_DERIVED, rng.choice([1, 2, 3])):
+            cn = rng.choice(["", "_"]) + bn[0]
+            tail += [ln.replace("@", cn) for ln in bn[1]]
     if rng.random() < 0.3:
         L.append(f"from {helper} import hf_public as reexported")
     fnames = rng.sample(FUNC_NAMES, rng.choice([2, 3, 5, 7]))
@@ -159,12 +183,14 @@ def gen_case(rng, k):
         if rng.random() < 0.2:
             L += ["    class Inner:", "        def inner_m(self):", "            return 1"]
         prev = cn
-    src = "\n".join(L) + "\n"
+    src = "\n".join(L + tail) + "\n"
     vis = rng.choice(["PUBLIC", "PUBLIC", "PROTECTED", "ALL"])
     ign = []
     c = rng.random()
     if c < 0.4:
-        pool = [f"{sut}.{fn}" for fn in fnames] + [f"{helper}.hf_public", f"{sut}.nothing", f"{sut}.{cnames[0]}.get"]
+        # also entries that are textual prefixes of other qualified names (matching must be exact)
+        pool = [f"{sut}.{fn}" for fn in fnames] + [f"{helper}.hf_public", f"{sut}.nothing"] + [
+            f"{sut}.{cn}.{m}" for cn in cnames for m in ("get", "put")] + [f"{sut}.{cnames[0]}", f"{sut}.{fnames[0]}"[:-1], sut]
         ign = rng.sample(pool, min(len(pool), rng.choice([1, 2])))
     ign_mod = [helper] if rng.random() < 0.1 else []
     return {"sut": src, "sut_path": sut_path, "extra_files": extra, "name": sut, "helper_name": helper,
@@ -284,7 +310,8 @@ def abstract_members(mod, case):
         seen_c.add(cls)
         own = cls.__module__ == sut
         is_enum = issubclass(cls, enum.Enum)
-        reached = (len(cls.__members__) > 0) if is_enum else not inspect.isabstract(cls)
+        withheld = inspect.isabstract(cls) or cls in (list, set, tuple, dict) or cls in (int, str, bytes, bool, float, complex)
+        reached = (len(cls.__members__) > 0 and not withheld) if is_enum else not withheld
         out.append({"kind": "Constructor", "name": cls.__name__, "own": own, "reached": reached, "async": False,
                     "listed": False, "main_test": False,
                     "key": ("enum" if is_enum else "constructor", cls.__module__, cls.__qualname__, "")})
@@ -389,9 +416,14 @@ def oracle(case):
                 yield st
 
     for st in top_level(tree.body):
+        if (isinstance(st, ast.Assign) and isinstance(st.value, ast.Call) and ast.unparse(st.value.func) == "namedtuple"
+                and len(st.targets) == 1 and isinstance(st.targets[0], ast.Name)):
+            if eligible(st.targets[0].id, vis):      # X = namedtuple('X', ...): a class of the module
+                must.add(("constructor", st.targets[0].id, ""))
+            continue
         if isinstance(st, ast.ClassDef):
             bases = [ast.unparse(b) for b in st.bases]
-            is_enum = "enum.Enum" in bases
+            is_enum = any(b.startswith("enum.") for b in bases)
             own_abs = {x.name for x in st.body if isinstance(x, ast.FunctionDef)
                        and any(ast.unparse(d) == "abc.abstractmethod" for d in x.decorator_list)}
             defined = {x.name for x in st.body if isinstance(x, (ast.FunctionDef, ast.AsyncFunctionDef))} | {
